@@ -423,9 +423,9 @@ def r1_name_result(sig: Text):
 
 
 def r6_pin_receiver(sig: Text):
-    sig.sub_code('R6', r'\bmut\s+self\s*:\s*Pin<\s*&mut\s+Self\s*>', '&mut self')
-    sig.sub_code('R6', r'\bself\s*:\s*Pin<\s*&mut\s+Self\s*>', '&mut self')
-    sig.sub_code('R6', r"Context<'_>", 'Context')
+    sig.sub_code('R6', r'\bmut\s+self\s*:\s*(?:std::pin::)?Pin<\s*&mut\s+Self\s*>', '&mut self')
+    sig.sub_code('R6', r'\bself\s*:\s*(?:std::pin::)?Pin<\s*&mut\s+Self\s*>', '&mut self')
+    sig.sub_code('R6', r"(?:std::task::)?Context<'_>", 'Context')
 
 
 def r4_closure_underscore(body: Text):
